@@ -14,7 +14,8 @@ type C16Spec struct {
 	Case   *FmtCase `json:"case"` // Route: "print" or "printf"
 	Prefix []*Op    `json:"prefix"`
 	Suffix []*Op    `json:"suffix"`
-	Writer int      `json:"writer"` // 0 ok, 1 fails, 2 short with error, 3 short without error
+	Writer int      `json:"writer"`         // 0 ok, 1 fails, 2 short with error, 3 short without error
+	Rich   bool     `json:"rich,omitempty"` // the writer also has WriteString, WriteByte, WriteRune and ReadFrom
 }
 
 func init() {
@@ -58,15 +59,27 @@ func checkC16(s *C16Spec) Result {
 	}
 	// F variant: one Write, same bytes, (n, err) from the writer
 	w := &recWriter{mode: s.Writer}
+	var dst io.Writer = w
+	var rich *richWriter
+	if s.Rich {
+		rich = &richWriter{recWriter: w}
+		dst = rich
+	}
 	var n int
 	var err error
 	fPanicked, _ := guard(func() {
 		if printf {
-			n, err = redact.Fprintf(w, format, args...)
+			n, err = redact.Fprintf(dst, format, args...)
 		} else {
-			n, err = redact.Fprint(w, args...)
+			n, err = redact.Fprint(dst, args...)
 		}
 	})
+	if rich != nil {
+		res.Classes = append(res.Classes, "writer-with-optional-methods")
+		if len(rich.others) != 0 {
+			return fail("F variant used %v of its writer, want one Write and nothing else", rich.others)
+		}
+	}
 	if fPanicked != refPanicked {
 		return fail("S variant panicked=%v, F variant panicked=%v", refPanicked, fPanicked)
 	}
